@@ -39,10 +39,35 @@ def model(tier):
         "Delays": {0, 1}, "EpLens": {0}, "Spaces": {"box"}, "Bads": tlagen.Raw('{[at |-> 0, cls |-> "ok"]}'),
         "Cuts": set(G[: n - 1]),
     }
-    plain = {"MaxOpt": 1 if tier == "quick" else 2, "MaxCalls": n, "ResetAnywhere": False, "ClockRule": "after_newdate",
+    plain = {"DayLen": DAY, "MaxOpt": 1 if tier == "quick" else 2, "MaxCalls": n, "ResetAnywhere": False, "ClockRule": "after_newdate",
              "HistoryOrder": "by_time", "NullRule": "in_space"}
     inv = ["PrefixEqual", "NextExecCut"]
     return tlagen.mc_module("MC", "NoLookahead", defs), tlagen.cfg(defs, plain, invariants=inv), inv, n
+
+
+def model_subsecond(tier):
+    """units of 0.1 ms: extra quotes one tick beyond the latency bound"""
+    u = 10000
+    dl = 86400 * u
+    g = [22 * 3600 * u, 23 * 3600 * u, dl + 1800 * u]
+    Lt = 30 * u
+    cs = [cand(g[k], "q", "A", 100 + 4 * k, 102 + 4 * k) for k in range(3)]
+    for k in range(2):
+        cs.append(cand(g[k] + Lt, "q", "A", 110 + k, 110 + k))         # exactly at the bound
+        cs.append(cand(g[k] + Lt + 1, "q", "A", 120 + k, 121 + k))     # 0.0001 s beyond it
+        cs.append(cand(g[k] + Lt + 3, "q", "A", 130 + k, 131 + k))     # 0.0003 s beyond it
+        cs.append(cand(g[k] + 1, "q", "B", 50 + k, 52 + k))
+    defs = {
+        "Grid": list(g), "Cand": cs, "Mandatory": {1, 2, 3}, "Lats": {Lt},
+        "Folds": tlagen.Raw("{<<0, 2000000000>>}"), "Modes": tlagen.Raw("{[markov |-> FALSE, warmup |-> -1]}"),
+        "Delays": {0, 1}, "EpLens": {0}, "Spaces": {"box"}, "Bads": tlagen.Raw('{[at |-> 0, cls |-> "ok"]}'),
+        "Cuts": set(g[:2]),
+    }
+    plain = {"DayLen": dl, "MaxOpt": 1 if tier == "quick" else 2, "MaxCalls": 3, "ResetAnywhere": False,
+             "ClockRule": "after_newdate", "HistoryOrder": "by_time", "NullRule": "in_space"}
+    inv = ["PrefixEqual", "NextExecCut"]
+    from fractions import Fraction
+    return tlagen.mc_module("MC", "NoLookahead", defs), tlagen.cfg(defs, plain, invariants=inv), inv, 3, Fraction(1, u)
 
 
 def _outputs(w, call, out, val):
@@ -102,7 +127,9 @@ def replay_chunk(ctx, texts):
         s = tlaval.parse_state(text)
         if s["ncallsA"] != ctx["maxcalls"]:
             continue
-        cfgA, cfgB, cut = s["cfgA"], s["cfgB"], s["cut"]
+        cfgA, cfgB, cut = dict(s["cfgA"]), dict(s["cfgB"]), s["cut"]
+        cfgA["tick"] = cfgB["tick"] = ctx.get("tick", 1)
+        replay_env._TICK[0] = ctx.get("tick", 1)
         histA, histB = list(s["histA"]), list(s["histB"])
         wa = replay_env.World(cfgA, True, seed=1, extra_features=lambda w: [Obs(w.A, w.B)])
         wb = replay_env.World(cfgB, True, seed=2, extra_features=lambda w: [Obs(w.A, w.B)])
@@ -166,6 +193,9 @@ def c02(tier, seed):
     module, cfg, inv, n = model(tier)
     explore.explore_and_replay(rep, "pairs", module, cfg, ("harness.nolook_check", "replay_chunk"), {"maxcalls": n},
                                set(CLAUSE_PROPS), inv, [], chunk=100)
+    module, cfg, inv, n, tick = model_subsecond(tier)
+    explore.explore_and_replay(rep, "pairs-subsecond", module, cfg, ("harness.nolook_check", "replay_chunk"),
+                               {"maxcalls": n, "tick": tick}, set(CLAUSE_PROPS), inv, [], chunk=100)
     from . import tabular_check
     tabular_check.lookahead(rep, tier, seed)
     return rep.finish()
